@@ -4,7 +4,7 @@ PROP = dict(
     level='proof',
     regen=['crctable'],
     theorems=['Fit.C18.C18_crc_eq_spec', 'Fit.C18.C18_split_indep', 'Fit.C18.C18_split_many',
-              'Fit.C18.C18_reset', 'Fit.C18.C18_state_is_value', 'Fit.C18.C18_sum_layout'],
+              'Fit.C18.C18_reset', 'Fit.C18.C18_state_is_value', 'Fit.C18.C18_sum_layout', 'Fit.C18.C18_write_eq_spec'],
     families=[dict(name='crc', spec=True)],
     trusted_base=STD_TRUST + [
         "crc16.go's 16 table literals are extracted by go/ast on every run (Generated/CrcTable.lean); the shape of compute() is tied by the exhaustive family: all 2^24 three-byte strings = every (state, byte) pair of the step function, digest-compared between implementation, model and bitwise spec",
